@@ -51,6 +51,10 @@ package config
 //@   anchorsonly
 //@   dyncalls noeffect
 //@   modifies *
+//@   at call strings.HasPrefix#1 assert a0 == params.Routing.Rules[$idx].Outbound.Name && a1 == "must_"
+//@   at call strings.TrimPrefix#1 assert a0 == params.Routing.Rules[$idx].Outbound.Name && a1 == "must_"
+//@   at call strings.HasPrefix#2 assert a0 == f.Name && a1 == "must_"
+//@   at call strings.TrimPrefix#2 assert a0 == f.Name && a1 == "must_"
 //@   at call builtin:append#1 assert a0 == params.Routing.Rules[$idx].Outbound.Params
 //@   at call builtin:append#1 assert-after len(result) == len(a0) + 1
 //@   at call builtin:append#2 assert a0 == f.Params
